@@ -270,8 +270,10 @@ def check_partial_roundtrip_variants(backend: int, has_kw: bool, has_attr: bool,
 
 def check_simple_queue_put(with_reducer: bool, has_wlock: bool, send_fails: bool, v: int) -> bool:
     """
+    pre: 0 <= v <= 3
     post: _
     """
+    v = _conc(v, 3)  # the payload goes through the C pickler: concrete values only
     # the result path of a worker: the real loky SimpleQueue.put pickles with that queue's reducers (and only
     # those), sends exactly one message, under the write lock, and leaves the lock free also when sending fails
     import loky.backend.queues as lq
